@@ -18,8 +18,10 @@ Every exclusion is justified below by a witness on the model (section "Why each 
 * text / `str`: not `overflow="ignore"` (`excluded_overflow_ignore`), `end` is the line feed or empty (`excluded_text_end`);
 * group: every member but the last ends its line — a `ProgressBar` never does (known finding F23 `progressbar-no-newline`:
   `known_progressbar_in_group_overflows`), nor does a text with `end=""` (`excluded_open_member_in_group`);
-* table — any number of columns, also none; ratio columns included: columns free to wrap exactly as the statement says: no `width`
-  (`excluded_fixed_width_column`), no `min_width` (`excluded_min_width_column`), no `no_wrap` (`excluded_no_wrap_column`); in an
+* table — any number of columns, also none; ratio columns included: EITHER columns free to wrap exactly as the statement says, OR
+  arbitrary columns (fixed `width`, `max_width`, `no_wrap`) within the budget `tableBudget` of C07's `width_bound_general`; below that
+  budget the bound fails (`excluded_fixed_width_column`, `excluded_no_wrap_column`), and a binding `min_width` makes the table up to
+  `floorSum` cells wider than the offer — the precise bound is `table_general_bound` (`excluded_min_width_column`); in an
   expanding table every ratio is allowed on the code with the repaired flexible-width clamp (fix 75c2776), and no `ratio=0` column
   on the code before it (finding `table-ratio-zero-column`, found by this check: `old_ratio_zero_column_overflows`);
 * `Columns(width=…)`: `excluded_columns_width_zero` shows the bound failing for `width=0`; for `width ≥ 1` no counterexample is known
@@ -28,15 +30,16 @@ Every exclusion is justified below by a witness on the model (section "Why each 
   explicit `Table(width=tw)` must leave one cell per column — NOT DISCHARGED, no counterexample known (both are evaluated directly on
   rich in every run): they would follow from "below its structural minimum a renderable is never wider than that minimum", which needs
   `_calculate_column_widths` below one cell per column;
-* a rule under `overflow="ignore"` options — NOT DISCHARGED (the rule text is exactly `w` cells wide, so it fits; `text_fits` is stated
-  for overflow ≠ ignore).
+* a rule is in the domain under every options, `overflow="ignore"` included (its text is exactly `w` cells wide: `text_fits_nowrap`),
+  provided the text it yields has no tab when it is not going to be truncated.
 
-`CfgOk cfg` asks three things only: the width function is rich's (`Gen.cellWidths`, regenerated from rich/_cell_widths.py on every run),
+`CfgOk cfg` asks four things only: the width function is rich's (`Gen.cellWidths`, regenerated from rich/_cell_widths.py on every run),
 tables draw `leading` as separate lines (`leadingRepeat = false`: with the as-found `true` a table line is `leading` times too wide, C07
-`old_table_rect_fails`), and the poison is empty (the model's "outside my domain" marker; the driver answers `unmodelled` for those
-requests, e.g. a panel title that is not a simple one-line text).  EVERY OTHER code variant is universally quantified: the theorems hold
-for all 2^4 frame variants, all 2^8 text/wrap variants and all 2^5 remaining table variants — in particular for the code as it is now
-(`nowCfg`: everything repaired) and for rich 9.10.0 as released apart from `leading`.
+`old_table_rect_fails`), a panel renders its title at the width it aligned it to (`titleAtConsoleWidth = false`, the code since fix
+0e1edf7: before it a title longer than the console was wrapped at the console's width inside the top border), and the poison is empty
+(the model's marker for a Python exception; the driver answers `unmodelled` there — no request does on today's code).  EVERY OTHER code
+variant is universally quantified: all 2^4 frame variants, all 2^8 text/wrap variants and all 2^6 remaining table variants — in particular
+the code as it is now (`nowCfg`: everything repaired).
 -/
 namespace RichModel.C01
 open RichModel RichModel.Frames RichModel.Layout
@@ -93,12 +96,12 @@ theorem table_boxes_same_order :
 def nowCfg : Cfg :=
   { cw := cwR, env := { consoleWidth := 80, colorSystem := 3 }, v := { zeroWidthChild := false, ruleRightRepeat := false, rstripCountsChars := false, columnsZeroCount := false }, wv := Wrap.WVariant.repaired, fl := Flags.allRepaired }
 
-/-- rich 9.10.0 as released, except `leading` -/
+/-- rich 9.10.0 as released, except `leading` and the width a panel title is rendered at -/
 def releasedCfg : Cfg :=
   { cw := cwR, env := { consoleWidth := 80 }, v := {}, wv := Wrap.WVariant.released, fl := { leadingRepeat := false } }
 
-example : CfgOk nowCfg := ⟨rfl, rfl, rfl⟩
-example : CfgOk releasedCfg := ⟨rfl, rfl, rfl⟩
+example : CfgOk nowCfg := ⟨rfl, rfl, rfl, rfl⟩
+example : CfgOk releasedCfg := ⟨rfl, rfl, rfl, rfl⟩
 
 def wText (s : String) : R := .text (Text.new Variant.repaired s.toList [0])
 def wBar : R := .progressBar { total := ⟨100, 1⟩, completed := ⟨50, 1⟩, width := some 5 }
@@ -138,7 +141,7 @@ theorem old_ratio_zero_column_overflows :
 /-- the repaired code (`max(minimum, width)`): the same table is in the domain (`render_fits` applies) and is exactly as wide as asked -/
 example : Dom nowCfg wRatioZero {} 13 := by
   rw [wRatioZero, Dom]
-  refine ⟨trivial, trivial, ?_, ?_⟩
+  refine ⟨trivial, trivial, Or.inl ⟨?_, ?_⟩⟩
   · intro c hc
     simp only [List.mem_cons, List.not_mem_nil, or_false] at hc
     rcases hc with rfl | rfl | rfl <;> exact ⟨⟨rfl, rfl, rfl⟩, Or.inl ⟨rfl, rfl⟩⟩
@@ -165,12 +168,37 @@ def wTable2 (c1 : ColOpts) : R :=
 
 /-- the same two-column table with both columns free to wrap fits its structural minimum 9 exactly … -/
 example : smin cwR (wTable2 {}) = 9 ∧ (widthsOf (wTable2 {}) 9).all (· == 9) = true := by decide +kernel
-/-- … with `width=10` on the first column it is 13 cells wide at 12 (the free column is collapsed to 0 and gets a cell back) -/
+
+/-! Columns that are NOT free to wrap are in the domain exactly when they meet `tableBudget` (first-pass widths of the columns that may
+not shrink + one cell per column that may ≤ the width on offer).  Below that budget the bound really fails: -/
+
+/-- `width=10` on the first column (budget 3 + 12 + 1 = 16): 13 cells at 12 (the free column is collapsed to 0 and gets a cell back) -/
 theorem excluded_fixed_width_column : (widthsOf (wTable2 { width := some 10 }) 12).all (· == 13) = true := by decide +kernel
-/-- … with `no_wrap=True` likewise -/
+/-- `no_wrap=True` on it (budget 3 + 17 + 1 = 21): likewise 13 cells at 12 -/
 theorem excluded_no_wrap_column : (widthsOf (wTable2 { noWrap := true }) 12).all (· == 13) = true := by decide +kernel
-/-- … with `min_width=8` it is 17 cells wide at 12 -/
+/-- a binding `min_width=8` (floor 8 + 2 padding = 10): 17 cells at 12 — inside the bound `12 + floorSum = 22` of `table_general_bound`,
+outside `Dom` (which promises the width itself) -/
 theorem excluded_min_width_column : (widthsOf (wTable2 { minWidth := some 8 }) 12).all (· == 17) = true := by decide +kernel
+
+/-- at its budget 16 the table with the fixed-width column IS in the domain (`render_fits` applies) and is exactly 16 cells wide -/
+example : Dom nowCfg (wTable2 { width := some 10 }) {} 16 := by
+  rw [wTable2, Dom]
+  refine ⟨trivial, trivial, Or.inr ⟨by simp, ?_, Or.inl ⟨rfl, rfl⟩, ⟨[12, 13], by decide +kernel, by decide +kernel⟩⟩⟩
+  intro c hc
+  simp only [List.mem_cons, List.not_mem_nil, or_false] at hc
+  rcases hc with rfl | rfl <;> exact Or.inl rfl
+example : (widthsOf (wTable2 { width := some 10 }) 16).all (· == 16) = true := by decide +kernel
+
+/-- **table_general_bound.**  A table with ARBITRARY columns (fixed `width`, `max_width`, `no_wrap`, `min_width`, ratios on today's
+code) that meets `tableBudget`: no line is wider than the available width plus `floorSum`, the `min_width + padding` floors of the
+columns that have a `min_width` and no fixed `width` — the exact amount by which such a table can exceed the offer (attained: C07
+`min_width_overflows`), and 0 when no `min_width` binds. -/
+theorem table_general_bound (cfg : Cfg) (ok : CfgOk cfg) (to : TableOpts) (cols : List Col) (o : Opts) (w : Nat)
+    (hne : cols ≠ []) (hwd : ∀ tw, to.width = some tw → tw ≤ w) (ht : annDom to.title o) (hc : annDom to.caption o)
+    (hr : (cfg.fl.flexNegative = false ∧ cfg.fl.flexClampZero = false) ∨ (toTable cfg (to.subst cfg.env) (colsR cfg cols)).NoRatio)
+    (hb : tableBudget cfg (to.subst cfg.env) (colsR cfg cols) w) :
+    Fits cfg.cw (w + (toTable cfg (to.subst cfg.env) (colsR cfg cols)).floorSum.toNat) (render cfg (.table to cols) o w) :=
+  Layout.table_general_bound cfg ok to cols o w hne hwd ht hc hr hb
 
 /-- `Columns(width=0)`: five items at their structural minimum 9 (one column each, one cell of padding between) make a 10-cell line -/
 theorem excluded_columns_width_zero :
